@@ -1,7 +1,11 @@
 package run
 
 import (
+	"bytes"
 	"math/rand"
+
+	wire "github.com/jeroenrinzema/psql-wire"
+	"github.com/jeroenrinzema/psql-wire/pkg/buffer"
 
 	"verif/harness/mem"
 )
@@ -54,6 +58,22 @@ func Play(beh M, rng *rand.Rand, proj *Projection) ([]M, error) {
 				x.Log.Append(mem.Ev{"k": "wedged", "conn": conn.ID})
 				wedged = true
 			}
+		case "errorcode":
+			// direct call of the public helper on a buffer.Writer (C17: nil error clause)
+			var err error
+			isnil := st["err"] == nil
+			if !isnil {
+				err = BuildErr(AsM(st["err"]))
+			}
+			var sink bytes.Buffer
+			w := buffer.NewWriter(quietLogger(), &sink)
+			wire.ErrorCode(w, err) //nolint
+			ev := mem.Ev{"k": "x-errorcode", "conn": conn.ID, "isnil": isnil, "err": M{"base": "", "layers": []any{}}}
+			if !isnil {
+				ev["err"] = st["err"]
+			}
+			x.Log.Append(ev)
+			x.Log.Append(mem.Ev{"k": "write", "conn": conn.ID, "b": sink.Bytes()})
 		case "fault":
 			switch S(st, "on") {
 			case "read":
